@@ -11,6 +11,7 @@ import (
 	"fmt"
 	"math"
 	"math/bits"
+	"strings"
 )
 
 // flag types (2 least significant bits) and subflags (6 most significant bits)
@@ -155,7 +156,11 @@ func newWireMapping(ms MappingSpec) wireMapping {
 	m := ms.build()
 	p := m.ToProto() // data only: gamma and index offset of that mapping
 	sub := byte(0)
-	switch ms.Kind {
+	base := ms.Kind
+	if i := strings.Index(base, "@"); i > 0 {
+		base = base[:i]
+	}
+	switch base {
 	case "linear":
 		sub = 1
 	case "cubic":
